@@ -500,6 +500,7 @@ func (ex *Explorer) Concretize(t *Term) uint64 {
 	// enumerate feasible values
 	d := &Decision{kind: "concretize"}
 	s := ex.solver
+	s.ref(t) // define the term before check-sat: a definition added after it is not part of the model
 	s.Push()
 	for {
 		r := s.Check()
@@ -593,7 +594,12 @@ func (ex *Explorer) Model() map[string]uint64 {
 	}
 	r := ex.solver.Check()
 	if r != "sat" {
-		ex.inconclusive("path condition not satisfiable at path end: " + r)
+		msg := "path condition not satisfiable at path end: " + r
+		for _, p := range ex.pc {
+			msg += "\n   pc: " + termStr(p, 6)
+		}
+		msg += fmt.Sprintf("\n   level=%d decisions=%d cursor=%d", ex.solver.level, len(ex.decisions), ex.cursor)
+		ex.inconclusive(msg)
 	}
 	m := ex.solver.ModelOfDeclared()
 	ex.checkModel(m, nil)
